@@ -8,7 +8,7 @@ import PyGqlModel.AsyncExec
 -/
 open PyGql PyGql.Exec
 
-namespace Driver.ExecOps
+namespace Driver.AsyncExecOps
 
 def modeOf : String → Mode
   | "deferred" => .deferred
@@ -81,4 +81,4 @@ def handle (j : J) : J :=
   | "blocking" => resultToJson (runBlocking (opOfJson (j.getD "case")))
   | _ => .obj [("error", .str "bad-op")]
 
-end Driver.ExecOps
+end Driver.AsyncExecOps
